@@ -39,6 +39,7 @@ func main() {
 		{"Locks.lean", extractLocks},
 		{"Math.lean", extractMath},
 		{"Grammar.lean", extractGrammar},
+		{"Balance.lean", extractBalance},
 	}
 	for _, g := range gens {
 		s, err := g.fn(*repo)
